@@ -61,9 +61,13 @@ def gen_bed(rng, contigs, ncols, zero_width):
         if rng.random() < 0.3:
             rows.append((name, L, L + 50) if rng.random() < 0.5 else (name, L + 10, L + 90))            # entirely past the end
     out = []
+    # one file in five names its bins the way probe tables and R exports do: numeric-looking IDs and the words a parser may take for "missing"
+    odd_names = rng.random() < 0.2
     for i, (c, s, e) in enumerate(rows):
         f = [c, str(s), str(e)]
-        if ncols >= 4:
+        if ncols >= 4 and odd_names:
+            f.append(str(rng.choice(["007", "12", "1e5", "0x1F", "NA", "null", "None", "nan", "N/A", "1.50", "-", "TRUE"])))
+        elif ncols >= 4:
             f.append(str(rng.choice(["TP53 exon 2", "a b", "x  y"])) if rng.random() < 0.08 else f"G{i // 3}" if rng.random() < 0.9 else "-")
         if ncols >= 6:
             f += [str(int(rng.integers(0, 1000))), str(rng.choice(["+", "-"]))]
